@@ -23,7 +23,17 @@ func main() {
 	list := flag.Bool("list", false, "list rules")
 	dump := flag.Bool("dump", false, "print every obligation")
 	noEvidence := flag.Bool("selftest-variant", false, "internal: run against a variant tree; print findings as JSON, write nothing")
+	anchorsDump := flag.Bool("anchorsdump", false, "print anchors_gen.go for the tree at -repo")
 	flag.Parse()
+	if *anchorsDump {
+		c, err := loadConfig(*repo, "avfs_setostype", "avfs_setostype")
+		if err != nil {
+			fmt.Println(err)
+			os.Exit(2)
+		}
+		fmt.Print(dumpAnchors(c))
+		return
+	}
 
 	if *list {
 		for _, r := range allRules {
@@ -126,6 +136,7 @@ func analyse(prop, tier, repo, verif string) (*Run, []*Rule, int) {
 			return nil, nil, 2
 		}
 		run.Cfgs = append(run.Cfgs, c)
+		curCfgs = run.Cfgs
 	}
 	for _, ru := range rules {
 		for _, c := range run.Cfgs {
